@@ -11,6 +11,22 @@ COMMON_NOTE = ("Trusted: Lean 4.33 kernel (axioms audited per theorem: subset of
                "standard library. ")
 
 CLAIMED = {
+    "C12": {
+        "text": "Lean model of document-graph loading as two memoised depth-first traversals (imported_definitions "
+                "over wsdl:import edges; one loaded_schemata pass per Definitions over xsd:import / xsd:include edges, "
+                "with the Import.__locate shortcut) built on the generic traversal whose invariants are proved for "
+                "every graph: definitions_fetched_at_most_once, schema_build_fetches_at_most_once, "
+                "only_reachable_definitions / only_reachable_schemas, every_definitions_builds_once (termination within "
+                "the fuel on cycles, self-imports and diamonds), imports_build_first; "
+                "diamond_through_definitions_witness shows the per-Definitions memo (a shared schema document is "
+                "fetched once per build). Tied to suds by comparing the recorded fetch log of every generated "
+                "partitioned WSDL with the model, and the resulting client with the single-document form; every "
+                "transport fetch is then failed (TransportError / ill-formed XML) under cachingpolicy 0 and 1 and "
+                "followed by a healthy retry and a warm load.",
+        "design_ref": "DESIGN.md section 6, C12",
+        "note": "schema construction is exercised, not modelled; cache-file atomicity itself is C11.",
+        "technique": "Lean 4 proof (DFS invariants reused from the dependency-sort model) + differential correspondence on fetch logs + fault injection at every fetch",
+    },
     "C07": {
         "text": "Lean model of dependency_sort (depth-first with processed set, insertion-ordered dict) with theorems "
                 "for EVERY dependency tree of any size: depsort_perm (cycles, self-loops, dangling edges: the result "
